@@ -115,6 +115,7 @@ type evaluator struct {
 	args   types.Object // the argument-vector parameter
 	fields map[string]poly
 	env    map[types.Object]poly
+	lenK   types.Object // slice of kept positions: len(it) is the symbol k
 	opaque int
 }
 
@@ -157,8 +158,12 @@ func (ev *evaluator) eval(e ast.Expr) (poly, bool) {
 			return p, ok
 		}
 	case *ast.CallExpr:
-		if b, ok := core.Callee(ev.info, x).(*types.Builtin); ok && b.Name() == "len" && len(x.Args) == 1 && objOf(ev.info, x.Args[0]) == ev.args {
-			return sym("n"), true
+		if b, ok := core.Callee(ev.info, x).(*types.Builtin); ok && b.Name() == "len" && len(x.Args) == 1 {
+			if o := objOf(ev.info, x.Args[0]); o != nil && o == ev.args {
+				return sym("n"), true
+			} else if o != nil && o == ev.lenK {
+				return sym("k"), true
+			}
 		}
 	case *ast.UnaryExpr:
 		if p, ok := ev.eval(x.X); ok && x.Op == token.SUB {
@@ -338,8 +343,20 @@ type interp struct {
 	tail     *ast.AssignStmt // new[D] = args[t]
 	tailVar  ast.Expr
 	eT       ast.Expr
-	tailCtr  types.Object // j with j = 0 before and j++ in the tail loop (may be nil)
+	tailCtr  types.Object // j initialised before and incremented once per iteration of the tail loop (may be nil)
+	tailInit ast.Expr     // its initial value
 	eP       ast.Expr     // prefix length (nil => no prefix copy)
+	// where the key loop lives: getMatchKeys itself or a same-package helper it calls
+	keyFn    *core.Fn
+	keyArgs  types.Object // the argument vector as seen by the key loop
+	recArr   ast.Expr     // the slice the key loop records into (== arr unless in a helper)
+	appended bool         // positions are recorded with append, their number is len(arr)
+	binds    []paramBind  // helper parameters <- caller arguments
+}
+
+type paramBind struct {
+	param types.Object
+	arg   ast.Expr
 }
 
 func forHeader(info *types.Info, f *ast.ForStmt) (v, init, bound ast.Expr, op token.Token, step ast.Expr, ok bool) {
@@ -383,6 +400,20 @@ func enclosingFors(root, n ast.Node) []*ast.ForStmt {
 	return out
 }
 
+// enclosingLoops lists the for/range statements around n, outermost first.
+func enclosingLoops(root, n ast.Node) []ast.Stmt {
+	var out []ast.Stmt
+	for _, x := range core.PathTo(root, n) {
+		switch l := x.(type) {
+		case *ast.ForStmt:
+			out = append(out, l)
+		case *ast.RangeStmt:
+			out = append(out, l)
+		}
+	}
+	return out
+}
+
 // recover reads the interpreter's skeleton; "" on success, else what is missing.
 func (it *interp) recover(filterKey *types.Func) string {
 	info, body := it.info, it.fn.Decl.Body
@@ -408,57 +439,163 @@ func (it *interp) recover(filterKey *types.Func) string {
 		return "command struct does not have exactly three integer fields"
 	}
 	copy(it.fnames[:], ints)
-	// key loop: the top-level for statement that consults FilterKey
+	// key loop: the top-level for statement that consults FilterKey, in this
+	// function or in a same-package helper whose result is assigned at top level
+	hasFK := func(n ast.Node) bool {
+		return len(core.Calls(n, info, func(_ *ast.CallExpr, o types.Object) bool { return o == types.Object(filterKey) })) > 0
+	}
+	topLoop := func(fn *core.Fn) *ast.ForStmt {
+		for _, s := range fn.Decl.Body.List {
+			if f, ok := s.(*ast.ForStmt); ok && hasFK(f.Body) {
+				return f
+			}
+		}
+		return nil
+	}
+	var helperAs *ast.AssignStmt
+	at := -1
 	for i, s := range body.List {
-		f, ok := s.(*ast.ForStmt)
+		if f, ok := s.(*ast.ForStmt); ok && hasFK(f.Body) {
+			it.keyLoop, it.keyFn, it.keyArgs, at = f, it.fn, info.Defs[it.argsP], i
+			break
+		}
+		as, ok := s.(*ast.AssignStmt)
+		if !ok || len(as.Rhs) != 1 || len(as.Lhs) != 1 {
+			continue
+		}
+		call, ok := ast.Unparen(as.Rhs[0]).(*ast.CallExpr)
 		if !ok {
 			continue
 		}
-		if len(core.Calls(f.Body, info, func(_ *ast.CallExpr, o types.Object) bool { return o == types.Object(filterKey) })) > 0 {
-			it.keyLoop, it.preamble = f, append([]ast.Stmt{}, body.List[:i]...)
-			// single-assignment locals introduced after the key loop (e.g. a
-			// `lead := cmd.firstkey - 1` used by the copy-out phase) are part of
-			// the straight-line integer environment as well
-			for _, later := range body.List[i+1:] {
-				if as, ok := later.(*ast.AssignStmt); ok && as.Tok == token.DEFINE && len(as.Lhs) == 1 && len(as.Rhs) == 1 {
-					it.preamble = append(it.preamble, as)
-				}
-			}
-			break
+		hf := it.c.FnOf(core.CalleeFunc(info, call))
+		if hf == nil || hf.Decl.Body == nil || hf.Obj.Pkg() != it.fn.Obj.Pkg() || hf.Obj == filterKey || topLoop(hf) == nil {
+			continue
 		}
+		ps := hf.Obj.Type().(*types.Signature).Params()
+		if ps.Len() != len(call.Args) || hf.Obj.Type().(*types.Signature).Results().Len() != 1 {
+			continue
+		}
+		for k, a := range call.Args {
+			if objOf(info, a) == info.Defs[it.argsP] {
+				it.keyArgs = ps.At(k)
+			} else {
+				it.binds = append(it.binds, paramBind{ps.At(k), a})
+			}
+		}
+		it.keyLoop, it.keyFn, helperAs, at = topLoop(hf), hf, as, i
+		break
 	}
-	if it.keyLoop == nil {
-		return "no top-level loop testing keys with FilterKey"
+	if it.keyLoop == nil || it.keyArgs == nil {
+		return "no top-level loop testing keys with FilterKey (here or in a helper called with args)"
+	}
+	it.preamble = append([]ast.Stmt{}, body.List[:at]...)
+	// single-assignment locals introduced after the key loop (e.g. a
+	// `lead := cmd.firstkey - 1` used by the copy-out phase) are part of
+	// the straight-line integer environment as well
+	for _, later := range body.List[at+1:] {
+		if as, ok := later.(*ast.AssignStmt); ok && as.Tok == token.DEFINE && len(as.Lhs) == 1 && len(as.Rhs) == 1 {
+			it.preamble = append(it.preamble, as)
+		}
 	}
 	var hok bool
 	it.loopVar, it.eF, it.eL, it.cmpOp, it.eS, hok = forHeader(info, it.keyLoop)
 	if !hok {
 		return "key loop header is not `for i := first; i <= last; i += step`"
 	}
-	n, bd := pat.Stmt("_arr[_num] = _i").Find(info, it.keyLoop.Body, pat.Binds{"_i": it.loopVar})
-	if n == nil {
-		return "key loop does not record passing positions as arr[num] = i"
+	if n, bd := pat.Stmt("_arr[_num] = _i").Find(info, it.keyLoop.Body, pat.Binds{"_i": it.loopVar}); n != nil {
+		it.recArr, it.num = bd["_arr"].(ast.Expr), bd["_num"].(ast.Expr)
+	} else if n, bd := pat.Stmt("_arr = append(_arr, _i)").Find(info, it.keyLoop.Body, pat.Binds{"_i": it.loopVar}); n != nil {
+		it.recArr, it.appended = bd["_arr"].(ast.Expr), true
+	} else {
+		return "key loop does not record passing positions as arr[num] = i or arr = append(arr, i)"
 	}
-	it.arr, it.num = bd["_arr"].(ast.Expr), bd["_num"].(ast.Expr)
-	if objOf(info, it.arr) == nil || objOf(info, it.num) == nil {
-		return "position array / counter are not local variables"
+	it.arr = it.recArr
+	if helperAs != nil {
+		if !it.appended {
+			return "a helper recording positions into a pre-sized array does not tell their number"
+		}
+		rets := 0
+		okRet := true
+		core.Inspect(it.keyFn.Decl.Body, func(n ast.Node) bool {
+			if r, ok := n.(*ast.ReturnStmt); ok {
+				rets++
+				if len(r.Results) != 1 || !pat.Same(info, r.Results[0], it.recArr) {
+					okRet = false
+				}
+			}
+			return true
+		})
+		if rets == 0 || !okRet {
+			return "the key-walking helper does not return exactly the positions it recorded"
+		}
+		it.arr = helperAs.Lhs[0]
 	}
-	// group copy
-	bd = pat.Binds{"_args": it.argsP, "_arr": it.arr}
-	g, gb := pat.Stmt("_new[_d] = _args[_arr[_a] + _b]").Find(info, body, bd)
-	if g == nil {
-		return "no copy of the kept groups `new[d] = args[arr[a] + b]`"
+	if objOf(info, it.arr) == nil {
+		return "position array is not a local variable"
 	}
-	it.grp, it.newV, it.grpA, it.grpB = g.(*ast.AssignStmt), gb["_new"].(ast.Expr), gb["_a"].(ast.Expr), gb["_b"].(ast.Expr)
-	fors := enclosingFors(body, g)
-	if len(fors) != 2 {
-		return "kept-group copy is not inside exactly two nested loops"
+	if it.appended { // the number of kept keys is len(arr), usually named once
+		it.num = nil
+		ast.Inspect(body, func(n ast.Node) bool {
+			if as, ok := n.(*ast.AssignStmt); ok && len(as.Lhs) == 1 && len(as.Rhs) == 1 && it.num == nil {
+				if pat.Expr("len(_arr)").Match(info, as.Rhs[0], pat.Binds{"_arr": it.arr}) != nil && singleDef(info, body, objOf(info, as.Lhs[0])) != nil {
+					it.num = as.Lhs[0]
+				}
+			}
+			return true
+		})
+		if it.num == nil {
+			if n, _ := pat.Expr("len(_arr)").Find(info, body, pat.Binds{"_arr": it.arr}); n != nil {
+				it.num = n.(ast.Expr)
+			} else {
+				return "the number of kept positions len(arr) is never used"
+			}
+		}
+	} else if objOf(info, it.num) == nil {
+		return "position counter is not a local variable"
 	}
-	va, ia, ba, oa, sa, ok1 := forHeader(info, fors[0])
-	vb, ib, bb, ob, sb, ok2 := forHeader(info, fors[1])
+	// group copy: new[d] = args[arr[a]+b] in `for a < num { for b < size`, or
+	// new[d] = args[pos+b] in `for a, pos := range arr[:num] { for b < size`
 	zero := func(e ast.Expr) bool { k, ok := core.IntConst(info, e); return ok && k == 0 }
-	if !ok1 || !ok2 || !pat.Same(info, va, it.grpA) || !pat.Same(info, vb, it.grpB) || !zero(ia) || !zero(ib) || oa != token.LSS || ob != token.LSS || sa != nil || sb != nil || !pat.Same(info, ba, it.num) {
-		return "kept-group loops are not `for a := 0; a < num; a++ { for b := 0; b < size; b++`"
+	bd := pat.Binds{"_args": it.argsP, "_arr": it.arr}
+	if g, gb := pat.Stmt("_new[_d] = _args[_arr[_a] + _b]").Find(info, body, bd); g != nil {
+		it.grp, it.newV, it.grpA, it.grpB = g.(*ast.AssignStmt), gb["_new"].(ast.Expr), gb["_a"].(ast.Expr), gb["_b"].(ast.Expr)
+		loops := enclosingLoops(body, g)
+		if len(loops) != 2 {
+			return "kept-group copy is not inside exactly two nested loops"
+		}
+		fa, isFor := loops[0].(*ast.ForStmt)
+		va, ia, ba, oa, sa, ok1 := forHeader(info, fa)
+		if !isFor || !ok1 || !pat.Same(info, va, it.grpA) || !zero(ia) || oa != token.LSS || sa != nil || !pat.Same(info, ba, it.num) {
+			return "outer kept-group loop is not `for a := 0; a < num; a++`"
+		}
+	} else {
+		found := false
+		for _, g := range pat.Stmt("_new[_d] = _args[_pos + _b]").FindAll(info, body, pat.Binds{"_args": it.argsP}) {
+			loops := enclosingLoops(body, g)
+			if len(loops) != 2 {
+				continue
+			}
+			r, isRange := loops[0].(*ast.RangeStmt)
+			gb := pat.Stmt("_new[_d] = _args[_pos + _b]").Match(info, g, pat.Binds{"_args": it.argsP})
+			if !isRange || r.Key == nil || r.Value == nil || objOf(info, r.Key) == nil || !pat.Same(info, r.Value, gb["_pos"]) {
+				continue
+			}
+			over := pat.Expr("_arr[:_num]").Match(info, r.X, pat.Binds{"_arr": it.arr, "_num": it.num}) != nil ||
+				it.appended && pat.Same(info, r.X, it.arr)
+			if !over {
+				continue
+			}
+			it.grp, it.newV, it.grpA, it.grpB, found = g.(*ast.AssignStmt), gb["_new"].(ast.Expr), r.Key, gb["_b"].(ast.Expr), true
+		}
+		if !found {
+			return "no copy of the kept groups `new[d] = args[arr[a] + b]` (or ranging over arr[:num])"
+		}
+	}
+	loops := enclosingLoops(body, it.grp)
+	fb, isFor := loops[1].(*ast.ForStmt)
+	vb, ib, bb, ob, sb, ok2 := forHeader(info, fb)
+	if !isFor || !ok2 || !pat.Same(info, vb, it.grpB) || !zero(ib) || ob != token.LSS || sb != nil {
+		return "inner kept-group loop is not `for b := 0; b < size; b++`"
 	}
 	it.eC = bb
 	// allocation
@@ -510,17 +647,19 @@ func (it *interp) recover(filterKey *types.Func) string {
 	if it.tail == nil {
 		return "no tail copy `for t := start; t < len(args); t++ { new[d] = args[t] }`"
 	}
-	if it.tailCtr != nil { // must start at 0
-		okInit := false
+	if it.tailCtr != nil { // initialised exactly once, at top level, before the loop
+		inits := 0
 		for _, s := range body.List {
-			if n, b := pat.Stmt("_j = _k").Find(info, s, nil); n != nil && objOf(info, b["_j"].(ast.Expr)) == it.tailCtr {
-				if _, isFor := s.(*ast.ForStmt); !isFor {
-					okInit = zero(b["_k"].(ast.Expr))
-				}
+			if _, isFor := s.(*ast.ForStmt); isFor {
+				continue
+			}
+			if as, ok := s.(*ast.AssignStmt); ok && len(as.Lhs) == 1 && len(as.Rhs) == 1 && objOf(info, as.Lhs[0]) == it.tailCtr && (as.Tok == token.DEFINE || as.Tok == token.ASSIGN) {
+				it.tailInit = as.Rhs[0]
+				inits++
 			}
 		}
-		if !okInit {
-			return "tail counter is not initialised to 0"
+		if inits != 1 {
+			return "tail counter is not initialised exactly once before the tail loop"
 		}
 	}
 	// prefix copy by copy(new, args[:P]) / copy(new[:P], args[:P])
@@ -540,7 +679,24 @@ func (it *interp) newEval(f, l, s *int64) *evaluator {
 	} else {
 		ev.fields[it.fnames[0]], ev.fields[it.fnames[1]], ev.fields[it.fnames[2]] = konst(*f), konst(*l), konst(*s)
 	}
-	ev.exec(it.preamble)
+	ev.lenK = objOf(it.info, it.arr)
+	// the tail counter's initialisation is evaluated where it is needed, not here
+	var pre []ast.Stmt
+	for _, st := range it.preamble {
+		if as, ok := st.(*ast.AssignStmt); ok && it.tailCtr != nil && len(as.Lhs) == 1 && objOf(it.info, as.Lhs[0]) == it.tailCtr {
+			continue
+		}
+		pre = append(pre, st)
+	}
+	ev.exec(pre)
+	if o := objOf(it.info, it.num); o != nil && it.appended {
+		ev.env[o] = sym("k")
+	}
+	for _, b := range it.binds { // the key loop runs in a helper: its parameters are the caller's arguments
+		if p, ok := ev.eval(b.arg); ok {
+			ev.env[b.param] = p
+		}
+	}
 	return ev
 }
 
@@ -602,7 +758,9 @@ func (it *interp) r3() {
 	ev := it.newEval(nil, nil, nil)
 	info := it.info
 	k := sym("k")
-	ev.env[objOf(info, it.num)] = k
+	if o := objOf(info, it.num); o != nil {
+		ev.env[o] = k
+	}
 	need := func(e ast.Expr, what string) (poly, bool) {
 		if e == nil {
 			return konst(1), true
@@ -635,7 +793,11 @@ func (it *interp) r3() {
 	}
 	ev.env[objOf(info, it.tailVar)] = sym("t")
 	if it.tailCtr != nil {
-		ev.env[it.tailCtr] = sym("t").add(T, -1)
+		init, ok := need(it.tailInit, "tail-counter")
+		if !ok {
+			return
+		}
+		ev.env[it.tailCtr] = init.add(sym("t"), 1).add(T, -1)
 	}
 	if D, ok := need(ast.Unparen(it.tail.Lhs[0]).(*ast.IndexExpr).Index, "tail-dest"); ok {
 		want := P.add(k.mul(C), 1).add(sym("t"), 1).add(T, -1)
